@@ -15,6 +15,8 @@ def rescan(ci, d):
         return [(repr(x.name), getattr(x, "z", 0)) for x in t.objects]
 
     def B(b):
+        if not hasattr(b, "name"):      # a slice used as a box (foliation)
+            return (type(b).__name__, T(b.dom), T(b.cod), [B(x) for x in b.boxes], list(b.offsets))
         return (type(b).__name__, repr(b.name), T(b.dom), T(b.cod), bool(getattr(b, "is_dagger", False)),
                 repr(getattr(b, "data", None)))
     dom, cod = T(d.dom), T(d.cod)
@@ -166,6 +168,25 @@ def run(tier, seed):
                 if bad:
                     rep.violation(bad, {"class": cname, "program": p, "impl": impl,
                                         "replay": base.snippet(cname, p)})
+    # oracle-only tour of the classes without a structural model of their own
+    import class_tour
+
+    def chk(name, r, exc):
+        rep.case(["tour", name, rep.evaluations], nontrivial=False)
+        if exc is not None:
+            rep.violation("an ill-typed diagram was built inside the library (hook DISCOPY_VERIF) during " + name,
+                          {"operation": name, "error": str(exc)[:400],
+                           "replay": "cd /verif/harness && PYTHONPATH=/repo DISCOPY_VERIF=1 /venv/bin/python -B -c "
+                                     "\"import random, class_tour; class_tour.tour(random.Random(%d), %d, print, lambda s: None)\""
+                                     % (seed + 17, 25)})
+        elif isinstance(r, str):
+            rep.violation(r, {"operation": name})
+        else:
+            bad = rescan(ci, r)
+            if bad:
+                rep.violation("%s returned an ill-typed diagram: %s" % (name, bad),
+                              {"operation": name, "value": repr(r)[:600]})
+    class_tour.tour(random.Random(seed + 17), 25 if tier == "quick" else 400, chk, rep.count)
     # the extracted runner against vm_compute inside coqc, on a sample of this run's programs
     xs = programs(tier, seed, True)
     common.cross_check_extraction(rep, "core", ["DV.Common.Base", "DV.Core.Prog"], "run_sexp", xs,
@@ -182,6 +203,7 @@ def run(tier, seed):
                      "independent range-checked reader and compares it with d.layers",
                      "the hook DISCOPY_VERIF=1 (if installed in /repo) re-scans diagrams built with "
                      "caller-supplied layers inside the library",
-                     "classes tensor/circuit/zx/biclosed/cartesian are covered for swaps/permutations "
-                     "by C10 and for their own constructions by C18/C19/C16 checks, not here"],
+                     "classes tensor, circuit, zx and cat are exercised by an oracle-only tour (random values of the "
+                     "class, generic operations, permutations/cups/caps/transposes/circuit2zx) whose results are "
+                     "re-scanned; biclosed and cartesian diagrams are re-scanned by the C18 / C19 checks"],
         checker_cmd="make -C coq Props/C01.vo  (coqc 8.16.1, Print Assumptions parsed)")
